@@ -300,7 +300,8 @@ pub fn replay_extra(prop: &str, extra: &serde_json::Value) -> Vec<String> {
         let blocking = r["blocking"].as_bool().unwrap_or(true);
         let rt = tokio::runtime::Builder::new_multi_thread().worker_threads(4).enable_time().build().expect("runtime");
         for i in 0..20000u32 {
-            let (hung, _) = ask_end_race_round(&rt, cap, askers, cause, blocking, i % 400);
+            let stream = r["stream"].as_u64().unwrap_or(1) as u32;
+            let (hung, _) = ask_end_race_round(&rt, cap, askers, cause, blocking, i % 400, stream);
             if hung > 0 {
                 return vec![format!("round {i}: {hung} of {askers} asks never returned after the actor (capacity {cap}) ended")];
             }
@@ -361,7 +362,7 @@ fn replay_capseq(tape: &[u32]) -> Vec<String> {
 /// One round: `askers` threads / tasks issue one ask each at (almost) the moment the actor ends by
 /// `cause`; every one of them must return (Ok or Err) - none may wait forever. Returns the number
 /// of askers that had not returned 3 s after the actor's JoinHandle resolved.
-pub fn ask_end_race_round(rt: &tokio::runtime::Runtime, cap: usize, askers: usize, cause: u8, blocking: bool, jitter: u32) -> (usize, usize) {
+pub fn ask_end_race_round(rt: &tokio::runtime::Runtime, cap: usize, askers: usize, cause: u8, blocking: bool, jitter: u32, stream: u32) -> (usize, usize) {
     use crate::actor::{MsgA, SimActor, World};
     use crate::scenario::*;
     use crate::trace::{Clock, Recorder};
@@ -385,7 +386,14 @@ pub fn ask_end_race_round(rt: &tokio::runtime::Runtime, cap: usize, askers: usiz
                 for _ in 0..spin {
                     std::hint::spin_loop();
                 }
-                let _ = r2.blocking_ask(MsgA(m), None);
+                // a stream of asks, so that one of them straddles the moment the actor ends
+                let mut m = m;
+                for _ in 0..stream {
+                    if r2.blocking_ask(MsgA(m.clone()), None).is_err() {
+                        break;
+                    }
+                    m.id += 100;
+                }
                 let _ = tx2.send(k);
             });
         } else {
@@ -393,13 +401,24 @@ pub fn ask_end_race_round(rt: &tokio::runtime::Runtime, cap: usize, askers: usiz
                 for _ in 0..spin {
                     std::hint::spin_loop();
                 }
-                let _ = r2.ask(MsgA(m)).await;
+                let mut m = m;
+                for _ in 0..stream {
+                    if r2.ask(MsgA(m.clone())).await.is_err() {
+                        break;
+                    }
+                    m.id += 100;
+                }
                 let _ = tx2.send(k);
             });
         }
     }
     drop(tx);
     // end the actor
+    if stream > 1 {
+        for _ in 0..jitter * 50 {
+            std::hint::spin_loop();
+        }
+    }
     rt.block_on(async {
         match cause % 4 {
             0 => {
@@ -429,42 +448,75 @@ pub fn ask_end_race_round(rt: &tokio::runtime::Runtime, cap: usize, askers: usiz
 }
 
 pub fn c03_race(prop: &'static str, seed: u64, rounds: u32, replay_out: &str, part: &mut Part) -> i32 {
-    let mut x = seed.wrapping_mul(0x9E3779B97F4A7C15) | 1;
-    let mut next = |n: u64| {
-        x ^= x << 13;
-        x ^= x >> 7;
-        x ^= x << 17;
-        (x >> 11) % n
-    };
     crate::trace::set_current(None);
-    let rt = tokio::runtime::Builder::new_multi_thread().worker_threads(4).enable_time().build().expect("runtime");
-    for _ in 0..rounds {
-        let cap = [1usize, 2, 8, 32][next(4) as usize];
-        let askers = 1 + next(4) as usize;
-        let cause = next(4) as u8;
-        let blocking = next(2) == 0 || prop == "C17";
-        let jitter = next(400) as u32;
-        let (hung, returned) = ask_end_race_round(&rt, cap, askers, cause, blocking, jitter);
-        part.evaluations += 1;
-        let key = format!("race:cap{cap}:n{askers}:cause{cause}:{}", if blocking { "blocking" } else { "async" });
-        if !part.nontrivial_hashes.contains(&key) {
-            part.nontrivial_hashes.push(key);
+    const LANES: u64 = 4;
+    struct Hit {
+        detail: String,
+        payload: serde_json::Value,
+    }
+    let shared = std::sync::Mutex::new((std::mem::take(part), None::<Hit>));
+    let stop = std::sync::atomic::AtomicBool::new(false);
+    std::thread::scope(|sc| {
+        for lane in 0..LANES {
+            let shared = &shared;
+            let stop = &stop;
+            sc.spawn(move || {
+                let mut x = (seed + 0x51 * lane).wrapping_mul(0x9E3779B97F4A7C15) | 1;
+                let mut next = |n: u64| {
+                    x ^= x << 13;
+                    x ^= x >> 7;
+                    x ^= x << 17;
+                    (x >> 11) % n
+                };
+                let rt = tokio::runtime::Builder::new_multi_thread().worker_threads(3).enable_time().build().expect("runtime");
+                for _ in 0..(rounds as u64 / LANES).max(1) {
+                    if stop.load(std::sync::atomic::Ordering::Relaxed) {
+                        break;
+                    }
+                    let cap = [1usize, 2, 8, 32][next(4) as usize];
+                    let cause = next(4) as u8;
+                    let blocking = next(2) == 0 || prop == "C17";
+                    let askers = 1 + next(if blocking { 4 } else { 12 }) as usize;
+                    let jitter = next(400) as u32;
+                    let stream = if next(3) == 0 || cause % 4 == 3 { 1 } else { 300 };
+                    let (hung, returned) = ask_end_race_round(&rt, cap, askers, cause, blocking, jitter, stream);
+                    let mut g = shared.lock().unwrap();
+                    let part = &mut g.0;
+                    if stream > 1 {
+                        *part.labels.entry("ask_end_race_stream_rounds".into()).or_default() += 1;
+                    }
+                    part.evaluations += 1;
+                    let key = format!("race:cap{cap}:n{askers}:cause{cause}:{}:{}", if blocking { "blocking" } else { "async" }, if stream > 1 { "stream" } else { "single" });
+                    if !part.nontrivial_hashes.contains(&key) {
+                        part.nontrivial_hashes.push(key);
+                    }
+                    *part.labels.entry("ask_end_race_rounds".into()).or_default() += 1;
+                    *part.labels.entry("ask_end_race_askers_returned".into()).or_default() += returned as u64;
+                    if part.samples.len() < 2 {
+                        let cause_name = ["handler panic", "stop", "kill", "last drop"][cause as usize % 4];
+                        part.samples.push(serde_json::json!({"ask_end_race": {"capacity": cap, "askers": askers, "cause": cause_name, "blocking": blocking, "asks_per_asker_at_most": stream, "returned": returned}}));
+                    }
+                    if hung > 0 {
+                        let cause_s = ["handler panic", "stop()", "kill()", "drop of the last reference"][cause as usize % 4];
+                        let detail = format!("{hung} of {askers} {} ask(s) issued while the actor (capacity {cap}) was ending by {cause_s} had not returned 3 s after its JoinHandle resolved", if blocking { "blocking_ask" } else { "async" });
+                        if g.1.is_none() {
+                            g.1 = Some(Hit { detail, payload: serde_json::json!({"ask_end_race": {"cap": cap, "askers": askers, "cause": cause, "blocking": blocking, "stream": stream}}) });
+                        }
+                        stop.store(true, std::sync::atomic::Ordering::Relaxed);
+                        break;
+                    }
+                }
+            });
         }
-        *part.labels.entry("ask_end_race_rounds".into()).or_default() += 1;
-        *part.labels.entry("ask_end_race_askers_returned".into()).or_default() += returned as u64;
-        if part.samples.len() < 2 {
-            let cause_name = ["handler panic", "stop", "kill", "last drop"][cause as usize % 4];
-            part.samples.push(serde_json::json!({"ask_end_race": {"capacity": cap, "askers": askers, "cause": cause_name, "blocking": blocking, "returned": returned}}));
-        }
-        if hung > 0 {
-            let cause_s = ["handler panic", "stop()", "kill()", "drop of the last reference"][cause as usize % 4];
-            let detail = format!("{hung} of {askers} {} ask(s) issued while the actor (capacity {cap}) was ending by {cause_s} had not returned 3 s after its JoinHandle resolved", if blocking { "blocking_ask" } else { "async" });
-            let path = write_replay(replay_out, prop, "ask-hangs-on-ended-actor-race", &detail, serde_json::json!({"ask_end_race": {"cap": cap, "askers": askers, "cause": cause, "blocking": blocking}}));
-            println!("VIOLATION property={prop} replay={path}");
-            println!("  kind=ask-hangs-on-ended-actor-race detail={detail}");
-            part.violations.push(serde_json::json!({"kind": "ask-hangs-on-ended-actor-race", "detail": detail, "replay": path}));
-            return 1;
-        }
+    });
+    let (p, hit) = shared.into_inner().unwrap();
+    *part = p;
+    if let Some(h) = hit {
+        let path = write_replay(replay_out, prop, "ask-hangs-on-ended-actor-race", &h.detail, h.payload);
+        println!("VIOLATION property={prop} replay={path}");
+        println!("  kind=ask-hangs-on-ended-actor-race detail={}", h.detail);
+        part.violations.push(serde_json::json!({"kind": "ask-hangs-on-ended-actor-race", "detail": h.detail, "replay": path}));
+        return 1;
     }
     0
 }
